@@ -163,22 +163,23 @@ class TOpt(T):
         self.key = ('Opt', inner.key)
 
     def _mk_sort(self):
-        d = z3.Datatype('Opt_' + _tname(self.inner))
-        d.declare('none')
-        d.declare('some', ('val', self.inner.sort()))
+        n = _tname(self.inner)
+        d = z3.Datatype('Opt_' + n)
+        d.declare('none_' + n)
+        d.declare('some_' + n, ('val_' + n, self.inner.sort()))
         return d.create()
 
     def none(self):
-        return self.sort().none
+        return self.sort().constructor(0)()
 
     def some(self, z):
-        return self.sort().some(z)
+        return self.sort().constructor(1)(z)
 
     def is_none(self, z):
-        return self.sort().is_none(z)
+        return self.sort().recognizer(0)(z)
 
     def val(self, z):
-        return self.sort().val(z)
+        return self.sort().accessor(1, 0)(z)
 
 
 class TUnion(T):
@@ -194,9 +195,9 @@ class TUnion(T):
         d = z3.Datatype('U_' + self.name)
         for n, t in self.alts:
             if t is TNone:
-                d.declare(n)
+                d.declare('%s_%s' % (self.name, n))
             else:
-                d.declare(n, ('v_' + n, t.sort()))
+                d.declare('%s_%s' % (self.name, n), ('%s_v_%s' % (self.name, n), t.sort()))
         return d.create()
 
     def alt_index(self, name):
@@ -206,14 +207,14 @@ class TUnion(T):
         raise KeyError(name)
 
     def mk(self, name, z=None):
-        c = getattr(self.sort(), name)
-        return c if z is None else c(z)
+        c = self.sort().constructor(self.alt_index(name))
+        return c() if z is None else c(z)
 
     def is_(self, name, z):
-        return getattr(self.sort(), 'is_' + name)(z)
+        return self.sort().recognizer(self.alt_index(name))(z)
 
     def get(self, name, z):
-        return getattr(self.sort(), 'v_' + name)(z)
+        return self.sort().accessor(self.alt_index(name), 0)(z)
 
 
 class TList(T):
@@ -244,19 +245,20 @@ class TDict(T):
         self.key = ('Dict', k.key, v.key)
 
     def _mk_sort(self):
-        d = z3.Datatype('Dict_' + _tname(self.k) + '__' + _tname(self.v))
-        d.declare('mk', ('dom', z3.ArraySort(self.k.sort(), z3.BoolSort())),
-                  ('map', z3.ArraySort(self.k.sort(), self.v.sort())))
+        n = 'Dict_' + _tname(self.k) + '__' + _tname(self.v)
+        d = z3.Datatype(n)
+        d.declare('mk_' + n, ('dom_' + n, z3.ArraySort(self.k.sort(), z3.BoolSort())),
+                  ('map_' + n, z3.ArraySort(self.k.sort(), self.v.sort())))
         return d.create()
 
     def dom(self, z):
-        return self.sort().dom(z)
+        return self.sort().accessor(0, 0)(z)
 
     def map(self, z):
-        return self.sort().map(z)
+        return self.sort().accessor(0, 1)(z)
 
     def mk(self, dom, mp):
-        return self.sort().mk(dom, mp)
+        return self.sort().constructor(0)(dom, mp)
 
     def empty_dom(self):
         return z3.K(self.k.sort(), z3.BoolVal(False))
